@@ -14,11 +14,14 @@ stack pointer and to the x87 register stack.
   A `cast_table` line (several instructions, possibly with forward jumps to local labels inside the
   line) has an effect iff all paths through it (`cellPaths`) have the same effect; `multiWhy` names
   two paths that disagree.
-* `checkFn` — whole-function check over code with labels and jumps: there is one height per label
+* `checkBody` — whole-function check over code with labels and jumps: there is one height per label
   such that every jump to a label and the fall-through into it arrive at that height (so no loop,
   branch, break, continue or goto can accumulate residue), heights never go below the function's
   frame (`rsp ≤ 0`, `0 ≤ x87 ≤ 8`), and every `jmp .L.return.*` leaves at rsp height 0.
   It is executable; the driver runs it on the model's output for every function of a dump.
+  The heights are inferred by forward scans repeated to a fixpoint (`inferFix`); the check is sound
+  (it accepts only code for which a labelling exists) and complete (it accepts whenever ANY labelling
+  passes `verify`): Props/C20.lean, Lemmas/C20Complete.lean.
 
 Assumptions recorded here: a `call` returns with %rsp as before the call and leaves the x87 stack
 as it was, plus one register when the callee returns long double (psABI); an `asm` statement and
@@ -264,32 +267,47 @@ def renameLocals : List Step → List (String × Nat) → List Step
 
 abbrev Labelling := List (String × H)
 
+/-- `.L.return.<fn>`: jumping there must happen with nothing left on the machine stack (the x87
+    stack may hold the long double return value) -/
+def isReturnLabel (l : String) : Bool := ".L.return.".toList.isPrefixOf l.toList
+
+/-- one step of the label inference: the height after the step (`none`: not reachable by falling
+    through) and the labelling, to which the step adds at most one entry — the height of the first
+    fall-through into a label or of the first jump to it, whichever the forward scan meets first.
+    `.L.return.*` is treated as `verify` treats it: it has no height of its own. -/
+def inferStep (s : Step) (cur : Option H) (acc : Labelling) : Option H × Labelling :=
+  match s with
+  | .delta d => (cur.map (· + d), acc)
+  | .cond l =>
+    if isReturnLabel l then (cur, acc) else
+    match cur, acc.lookup l with
+    | some c, none => (cur, (l, c) :: acc)
+    | _, _ => (cur, acc)
+  | .jump l =>
+    if isReturnLabel l then (none, acc) else
+    match cur, acc.lookup l with
+    | some c, none => (none, (l, c) :: acc)
+    | _, _ => (none, acc)
+  | .leave => (none, acc)
+  | .label l =>
+    if isReturnLabel l then (none, acc) else
+    match acc.lookup l, cur with
+    | some h, _ => (some h, acc)
+    | none, some c => (some c, (l, c) :: acc)
+    | none, none => (none, acc)
+  | .bad _ => (cur, acc)
+
 /-- pass 1: propose a height for every label — the height of the first fall-through into it or of
     the first jump to it, whichever the forward scan meets first -/
 def infer : List Step → Option H → Labelling → Labelling
   | [], _, acc => acc
-  | s :: r, cur, acc =>
-    match s with
-    | .delta d => infer r (cur.map (· + d)) acc
-    | .cond l =>
-      match cur, acc.lookup l with
-      | some c, none => infer r cur ((l, c) :: acc)
-      | _, _ => infer r cur acc
-    | .jump l =>
-      match cur, acc.lookup l with
-      | some c, none => infer r none ((l, c) :: acc)
-      | _, _ => infer r none acc
-    | .leave => infer r none acc
-    | .label l =>
-      match acc.lookup l, cur with
-      | some h, _ => infer r (some h) acc
-      | none, some c => infer r (some c) ((l, c) :: acc)
-      | none, none => infer r none acc
-    | .bad _ => infer r cur acc
+  | s :: r, cur, acc => infer r (inferStep s cur acc).1 (inferStep s cur acc).2
 
-/-- `.L.return.<fn>`: jumping there must happen with nothing left on the machine stack (the x87
-    stack may hold the long double return value) -/
-def isReturnLabel (l : String) : Bool := ".L.return.".toList.isPrefixOf l.toList
+/-- the range of heights inside a function: nothing above the frame, at most eight x87 registers -/
+def okH (c : H) : Bool := c.rsp ≤ 0 && 0 ≤ c.x87 && c.x87 ≤ 8
+
+/-- the complaint of `verify` about a height outside `okH` -/
+def rangeMsg (c : H) : String := s!"height out of range: rsp {c.rsp}, x87 {c.x87}"
 
 /-- pass 2 — the definition of consistency for a given labelling: scan the code once; at every
     label and at every jump the current height must be the label's height; heights stay within the
@@ -297,13 +315,12 @@ def isReturnLabel (l : String) : Bool := ".L.return.".toList.isPrefixOf l.toList
 def verify (h : Labelling) : List Step → Option H → Except String Unit
   | [], _ => .ok ()
   | s :: r, cur =>
-    let okH (c : H) : Bool := c.rsp ≤ 0 && 0 ≤ c.x87 && c.x87 ≤ 8
     match s with
     | .delta d =>
       match cur with
       | some c =>
         if okH (c + d) then verify h r (some (c + d))
-        else .error s!"height out of range: rsp {(c + d).rsp}, x87 {(c + d).x87}"
+        else .error (rangeMsg (c + d))
       | none => verify h r none
     | .cond l | .jump l =>
       let next := match s with | .jump _ => none | _ => cur
@@ -329,20 +346,33 @@ def verify (h : Labelling) : List Step → Option H → Except String Unit
       | none, none => verify h r none      -- dead code: never jumped to, not fallen into
     | .bad why => .error why
 
-/-- repeat the inference a few times: a label that is only reached by a backward jump gets its
-    height on the second pass -/
+/-- repeat the inference a fixed number of times (the checker before the fixpoint iteration used
+    `inferN 3`: a label that is only reached by a backward jump gets its height on the second pass,
+    a chain of k such labels needs k + 1 passes — kept for the witness in Findings/C20.lean) -/
 def inferN : Nat → List Step → Labelling → Labelling
   | 0, _, acc => acc
   | n + 1, steps, acc => inferN n steps (infer steps (some H.zero) acc)
 
+/-- repeat the inference until a pass adds nothing.  Every pass that is not the last adds a height
+    for at least one more label or jump target of the skeleton, so `length + 1` passes of fuel reach
+    the fixpoint (Lemmas/C20Complete.lean: `inferFix_fixpoint`). -/
+def inferFix : Nat → List Step → Labelling → Labelling
+  | 0, _, acc => acc
+  | n + 1, steps, acc =>
+    let acc' := infer steps (some H.zero) acc
+    if acc'.length == acc.length then acc else inferFix n steps acc'
+
+/-- the labelling the checker infers for a skeleton -/
+def inferred (st : List Step) : Labelling := inferFix (st.length + 1) st []
+
 /-- the control-flow skeleton of a piece of code -/
 def steps (ls : List Line) : List Step := renameLocals (ls.flatMap classify) []
 
-/-- check the body of one function (the lines between the prologue and `.L.return.<fn>:`) -/
+/-- check the body of one function (the lines between the prologue and `.L.return.<fn>:`): infer one
+    height per label (to a fixpoint), then verify that every jump and every fall-through arrives at
+    its label's height, within the range -/
 def checkBody (body : List Line) : Except String Unit :=
-  let st := steps body
-  let h := inferN 3 st []
-  verify h st (some H.zero)
+  verify (inferred (steps body)) (steps body) (some H.zero)
 
 /-! ## the relative form used in theorem statements -/
 
